@@ -12,6 +12,8 @@ var Registry = map[string]func(*core.Ctx) error{
 	"C06": C06,
 	"C07": C07,
 	"C08": C08,
+	"C13": C13,
+	"C17": C17,
 }
 
 // Workers are child-process entry points (journalled batches of cases that may crash or hang).
